@@ -314,7 +314,15 @@ func c03Cache(c *core.Ctx) {
 					bad = "the cached entry's header map is modified in place (delete)"
 					break
 				}
-				undecided = "the cached header is passed to a function"
+				// handed to a same-package helper: fine if the helper only copies or inspects
+				// its parameter (e.g. func copyHeader(h http.Header) http.Header { return h.Clone() })
+				switch c03paramUse(c, f, x, ast.Unparen(u.e), 0) {
+				case "ok":
+				case "bad":
+					bad = "the cached entry's header map is handed to a helper that stores, returns or modifies it (no Clone)"
+				default:
+					undecided = "the cached header is passed to a function"
+				}
 			case *ast.AssignStmt:
 				// right-hand side: an alias if the target is a local variable, an escape otherwise
 				idx := -1
@@ -376,4 +384,106 @@ func c03Cache(c *core.Ctx) {
 	})
 	c.RequireCount("R-C03-8", "stores into the header of a cache entry", writes, 1)
 	c.RequireCount("R-C03-8", "uses of the header of a cache entry", reads, 1)
+}
+
+// c03paramUse classifies what a same-package callee does with the argument `arg` of call:
+// "ok" if the corresponding parameter is only cloned / read (Clone, Get, Values, index read,
+// range, len, nil test, or passed on to a helper that is "ok"), "bad" if it is returned,
+// stored or modified, "" if unknown.
+func c03paramUse(c *core.Ctx, f *flow.Func, call *ast.CallExpr, arg ast.Expr, depth int) string {
+	fo, ok := f.Callee(call).(*types.Func)
+	if !ok || depth > 2 {
+		return ""
+	}
+	hf := c03declOf(c, fo)
+	if hf == nil {
+		return ""
+	}
+	fd := hf.Node.(*ast.FuncDecl)
+	var param types.Object
+	i := 0
+	for _, fl := range fd.Type.Params.List {
+		for _, id := range fl.Names {
+			if i < len(call.Args) && ast.Unparen(call.Args[i]) == arg {
+				param = hf.Info.Defs[id]
+			}
+			i++
+		}
+	}
+	if sel, ok := ast.Unparen(call.Fun).(*ast.SelectorExpr); ok && ast.Unparen(sel.X) == arg && fd.Recv != nil && len(fd.Recv.List) == 1 && len(fd.Recv.List[0].Names) == 1 {
+		param = hf.Info.Defs[fd.Recv.List[0].Names[0]]
+	}
+	if param == nil {
+		return ""
+	}
+	pm := parentMap(fd.Body)
+	verdict := "ok"
+	worse := func(v string) {
+		if v == "bad" || (v == "" && verdict == "ok") {
+			verdict = v
+		}
+	}
+	ast.Inspect(fd.Body, func(n ast.Node) bool {
+		id, ok := n.(*ast.Ident)
+		if !ok || hf.Info.Uses[id] != param {
+			return true
+		}
+		var e ast.Node = id
+		p := pm[e]
+		for {
+			if pe, ok := p.(*ast.ParenExpr); ok {
+				e, p = pe, pm[pe]
+				continue
+			}
+			break
+		}
+		switch x := p.(type) {
+		case *ast.SelectorExpr:
+			pc, _ := pm[x].(*ast.CallExpr)
+			if pc == nil || ast.Unparen(pc.Fun) != ast.Expr(x) {
+				worse("")
+				return true
+			}
+			switch op, _ := c03hdrOp(hf, pc); op {
+			case "Clone", "Get", "Values", "Write", "WriteSubset":
+			case "Set", "Add", "Del":
+				worse("bad")
+			default:
+				worse(c03paramUse(c, hf, pc, id, depth+1))
+			}
+		case *ast.IndexExpr:
+			if x.X == e {
+				if as, ok := pm[x].(*ast.AssignStmt); ok {
+					for _, l := range as.Lhs {
+						if ast.Unparen(l) == ast.Expr(x) {
+							worse("bad")
+						}
+					}
+				}
+			}
+		case *ast.RangeStmt:
+			if x.X != e {
+				worse("")
+			}
+		case *ast.BinaryExpr:
+		case *ast.CallExpr:
+			if b, ok := hf.Callee(x).(*types.Builtin); ok {
+				if b.Name() == "delete" {
+					worse("bad")
+				} else if b.Name() != "len" {
+					worse("")
+				}
+				return true
+			}
+			worse(c03paramUse(c, hf, x, id, depth+1))
+		case *ast.ReturnStmt, *ast.KeyValueExpr, *ast.CompositeLit:
+			worse("bad")
+		case *ast.AssignStmt:
+			worse("bad") // stored or aliased: not followed further, the map may escape
+		default:
+			worse("")
+		}
+		return true
+	})
+	return verdict
 }
